@@ -59,3 +59,59 @@ def run(check, mirror, tier):
         dict(harness="k_ym_duration", timeout=600, unwind=4, decode=dec_two_dates, replay=replay_ym),
     ]
     run_k(check, mirror, "dmntk-feel", specs, rb=rb)
+
+    # --- M: date from three numbers (narrowing conversions) -------------------------------------------------------------------
+    import re
+    import z3
+    from mcheck import MirCrate, decide, run_parallel, model_value
+    from mir.sym import Adt, En, Opaque, Ref, Sc
+    import numvals as nv
+    import feelvals as fv
+    crate = MirCrate(mirror, ["feel", "feel-number"], overflow_checks=True)
+    U = fv.Universe(mirror)
+    check.bounds.append("M/date_from_numbers: year, month, day any FEEL numbers (integers of any magnitude and non-integers)")
+    check.assumptions.append("decQuadToUInt32/ToInt32: value rounded to an integer, 0 when out of range (dec.rs contract); is_valid_date by its contract (K/k_is_valid_date)")
+
+    def m_is_valid_date_contract(ex, st, callee, args, dest_ty):
+        from mir.sym import mk_bool
+        yield st, mk_bool(U.cal_valid(args[0].e, args[1].e, args[2].e))
+    from mir.models import m_format_stub
+    MODELS = [(re.compile(r"^is_valid_date$"), m_is_valid_date_contract),
+              (re.compile(r"^format$|^std::fmt::format$|^alloc::fmt::format$"), m_format_stub)] + nv.NUM_MODELS
+
+    def setup(ex, st):
+        ns = [nv.fresh_number(ex, st, h) for h in ("year", "month", "day")]
+        inputs = {}
+        for h, n in zip(("year", "month", "day"), ns):
+            inputs[h + "_floor"], inputs[h + "_isint"] = n.e, n.info["int"]
+        return "<FeelDate as TryFrom<(FeelNumber, FeelNumber, FeelNumber)>>::try_from", [Adt("tuple", None, ns)], inputs
+
+    def post(ex, o, v):
+        allint = z3.And(v["year_isint"], v["month_isint"], v["day_isint"])
+        y, m, d = v["year_floor"], v["month_floor"], v["day_floor"]
+        valid = z3.And(allint, U.cal_valid(y, m, d))
+        r = o.value
+        res = [("date(y, m, d) is accepted iff the three numbers are integers forming a calendar date", (r.disc == 0) == valid)]
+        if "Ok" in r.alts:
+            f = r.alts["Ok"][0].fields
+            res.append(("the date has exactly the given components", z3.Implies(r.disc == 0, z3.And(f[0].e == y, f[1].e == m, f[2].e == d))))
+        return res
+
+    def replay(i, rb):
+        def t(h):
+            return str(i[h + "_floor"]) if i[h + "_isint"] else "%d.5" % i[h + "_floor"]
+        expr = "date(%s,%s,%s)" % (t("year"), t("month"), t("day"))
+        _, out, _ = replay_call(rb, ["feel", expr.replace("(-", "((0-").replace(",-", ",(0-") if False else expr])
+        ok_ = i["year_isint"] and i["month_isint"] and i["day_isint"] and py_valid(i["year_floor"], i["month_floor"], i["day_floor"])
+        got_ok = out.startswith("VALUE ") and not out.startswith("VALUE null")
+        bad = got_ok != ok_
+        if ok_ and got_ok:
+            y = i["year_floor"]
+            want = "%s%s-%02d-%02d" % ("-" if y < 0 else "", str(abs(y)).rjust(4, "0"), i["month_floor"], i["day_floor"])
+            bad = out[6:] != want
+        return bad, "%s -> %s (a calendar date with integer components: %s)" % (expr, out[:60], ok_)
+
+    decide(check, crate, "date_from_numbers", setup, post, replay, rb, models=MODELS, budget_s=600, min_paths=2, timeout_ms=20000,
+           describe=lambda m, inputs: {k: model_value(m, x) for k, x in inputs.items()},
+           prefer=lambda inp: z3.And(inp["year_floor"] >= 1000, inp["year_floor"] <= 9999, inp["month_floor"] >= -1000, inp["month_floor"] <= 1000,
+                                     inp["day_floor"] >= -1000, inp["day_floor"] <= 1000))
